@@ -322,7 +322,7 @@ namespace vf
           gm["deflections"] = d;
         }
       gm["grain sizes"] = sizes;
-      if (kind != "uniform" && ch.flip()) { J nz = J::arr(); for (int k = 0; k < nc; ++k) nz.push(J(ch.flip())); gm["normalize grain sizes"] = nz; }
+      if (kind != "uniform" && (nc > 1 || ch.flip())) { J nz = J::arr(); for (int k = 0; k < nc; ++k) nz.push(J(ch.flip())); gm["normalize grain sizes"] = nz; }
       a.push(gm);
       return a;
     }
